@@ -129,9 +129,13 @@ pub fn run_scenario(cfg: &Cfg) -> RunStat {
   }
 
   let n = np + nc;
+  // PCT: the expected run length k is drawn per run (many races sit in the first few steps,
+  // others need a long prefix), d-1 priority change points fall uniformly in 1..k
+  let ks = [6u64, 12, 25, 50, 100, 200, 400];
+  let k = ks[((cfg.seed / 7) % ks.len() as u64) as usize];
   let strat = match cfg.strategy.as_str() {
-    "pct" => Strategy::Pct { d: 3, k: 120 },
-    "pct5" => Strategy::Pct { d: 5, k: 200 },
+    "pct" => Strategy::Pct { d: 2, k },
+    "pct5" => Strategy::Pct { d: 3, k },
     _ => Strategy::Random { p: 0.25 },
   };
   let ctl = Ctl::new(n, cfg.seed ^ 0x9e3779b97f4a7c15, strat);
